@@ -99,4 +99,14 @@ def WFRec (c : AcControlData) : Prop :=
 
 def WF (m : Msg) : Prop := ∀ c ∈ m.ac_control, WFRec c
 
+/-- run-time test of `WFRec` -/
+def wfRecBool (c : AcControlData) : Bool :=
+  decide (c.ac_number < 16) &&
+  (match c.set_point with
+   | none => true
+   | some sp => decide (100 ≤ sp) && decide (sp ≤ 355))
+
+/-- run-time test of `WF` -/
+def wfBool (m : Msg) : Bool := m.ac_control.all wfRecBool
+
 end PyAirtouch.Model.At5.C022
